@@ -13,6 +13,8 @@ import (
 
 	entkeeper "github.com/unification-com/mainchain/x/enterprise/keeper"
 	enttypes "github.com/unification-com/mainchain/x/enterprise/types"
+
+	"verifharness/lab"
 )
 
 const qEnt = "/mainchain.enterprise.v1.Query/"
@@ -229,6 +231,17 @@ func parseEvents(w *World, evs []abci.Event, st *c02State, phase string) {
 			}
 		} else {
 			st.burns = st.burns.Add(coins...)
+			// protocol burns: governance deposits, staking pools (slashing), IBC vouchers - the module accounts that hold
+			// the burner permission in this application; nothing else may destroy coins
+			ok := false
+			for _, m := range []string{"gov", "bonded_tokens_pool", "not_bonded_tokens_pool", "transfer"} {
+				if who == lab.ModuleAddr(m).String() {
+					ok = true
+				}
+			}
+			if !ok {
+				w.Fail("C02", "coins burned (%s) by %s during %s: not one of the protocol's burners (governance deposits, staking pools, IBC transfer)", amt, who, phase)
+			}
 		}
 	}
 }
